@@ -158,11 +158,17 @@ func sanitizationContextForAttrVal(element, attr, linkRel string) (sanitizationC
 	if element == "link" && attr == "href" {
 		// Special case: safehtml.URL values are allowed in a link element's href attribute if that element's
 		// rel attribute possesses certain values.
+		// Every rel value must be one that does not make the link load a resource that can run
+		// code or apply styles: with rel="alternate stylesheet" the link is still a stylesheet.
 		relVals := strings.Fields(linkRel)
+		allURLRelVals := len(relVals) > 0
 		for _, val := range relVals {
-			if urlLinkRelVals[val] {
-				return sanitizationContextTrustedResourceURLOrURL, nil
+			if !urlLinkRelVals[val] {
+				allURLRelVals = false
 			}
+		}
+		if allURLRelVals {
+			return sanitizationContextTrustedResourceURLOrURL, nil
 		}
 	}
 	if dataAttributeNamePattern.MatchString(attr) {
